@@ -1,13 +1,7 @@
 """C12 check configuration (data only)."""
-import os
-import sys
 from propbase import KERNEL, HARNESS
 
-sys.path.insert(0, os.path.join(os.path.dirname(os.path.abspath(__file__)), "..", "translate"))
-import sixel_tables  # noqa: E402
-
-PROP = {'gen': [],
- 'pre_coq': [sixel_tables.hook],
+PROP = {'gen': ['sixel'],
  'coq_props': ['theories/Props/C12.vo'],
  'coq_corr': ['theories/Corr/C12Corr.vo'],
  'props_file': 'theories/Props/C12.v',
@@ -25,8 +19,8 @@ PROP = {'gen': [],
                'rasterize blend_over and the 64-bit content hash are oracles. No axioms.',
  'technique': 'Coq proof (encoder/interpreter round trip for every hash iteration order) + regenerated tables + model/implementation correspondence',
  'design_ref': 'DESIGN.md 6.12',
- 'n_quick': 260,
- 'n_thorough': 5000,
+ 'n_quick': 230,
+ 'n_thorough': 3500,
  'shard': 20,
  'level': 'proof',
  'trusted_base': [KERNEL,
